@@ -69,7 +69,33 @@ func (clonesim) Generate(rng *Rand, prop, tier string) *Script {
 		w()
 	}
 	add(Op{K: "wait"})
-	add(Op{K: "clone", A: int64(rng.Range(1, int(sn)))})
+	degraded := s.Cfg["rf"] >= 2 && rng.Bool(35)
+	victim := int64(rng.Intn(int(s.Cfg["rf"])))
+	if degraded {
+		// the source volume is degraded when the clone looks for a replica to copy from: one
+		// replica is being rebuilt (possibly on a fresh disk), and the healthy ones go away
+		// around the moment the clone starts
+		add(Op{K: "kill", A: victim})
+		add(Op{K: "adv", A: int64(rng.Range(100, 3000))})
+		if rng.Bool(50) {
+			add(Op{K: "replace", A: victim})
+		} else {
+			add(Op{K: "restart", A: victim})
+		}
+		add(Op{K: "adv", A: int64(rng.Range(1, 2500))})
+	}
+	// F: clone the automatic snapshot that the running rebuild took on the rebuilding replica
+	// (it is in that replica's chain before the data below it has been copied)
+	add(Op{K: "clone", A: int64(rng.Range(1, int(sn))), F: degraded && rng.Bool(50)})
+	if degraded {
+		add(Op{K: "adv", A: int64(rng.Intn(3000))})
+		for r := int64(0); r < s.Cfg["rf"]; r++ {
+			if r != victim {
+				add(Op{K: "kill", A: r})
+			}
+		}
+		add(Op{K: "adv", A: int64(rng.Range(500, 9000))})
+	}
 	// while the clone runs: more writes to the source, time, faults
 	for j, k := 0, rng.Range(0, 6); j < k; j++ {
 		switch x := rng.Intn(100); {
@@ -99,6 +125,7 @@ type cloneRun struct {
 	fe2      *simFrontend
 	clone    *repNode
 	snapName string
+	refImg   []byte // image of the snapshot on an RW source replica when the clone started (clone of an automatic snapshot)
 	sawRW    bool
 }
 
@@ -190,6 +217,39 @@ func (cr *cloneRun) startClone(op Op) {
 		return
 	}
 	cr.snapName = cr.snaps[int(op.A-1)%len(cr.snaps)].name
+	cr.refImg = nil
+	if op.F && c.ctrl != nil {
+		// the latest snapshot in the chain of a replica that is WO right now, if every RW replica has it too
+		list := c.ctrl.ListReplicas()
+		for _, r := range list {
+			if r.Mode != types.WO {
+				continue
+			}
+			for _, rn := range c.reps {
+				if rn.addr != r.Address || !rn.up {
+					continue
+				}
+				var vm volMeta
+				if readJSON(filepath.Join(rn.dir, "volume.meta"), &vm) != nil || !strings.HasPrefix(vm.Parent, "volume-snap-") {
+					continue
+				}
+				name := strings.TrimSuffix(strings.TrimPrefix(vm.Parent, "volume-snap-"), ".img")
+				for _, r2 := range list {
+					if r2.Mode != types.RW {
+						continue
+					}
+					for _, src := range c.reps {
+						if src.addr == r2.Address && src.up {
+							if img, _, err := cr.snapshotImage(src, vm.Parent); err == nil {
+								cr.snapName, cr.refImg = name, img
+								cr.res.stat("clone_of_rebuild_snapshot", 1)
+							}
+						}
+					}
+				}
+			}
+		}
+	}
 	cr.clone = &repNode{idx: 100, name: "clone", ip: "10.0.1.2"}
 	cr.clone.addr = "tcp://10.0.1.2:9502"
 	cr.clone.base = filepath.Join(c.root, "clone")
@@ -206,7 +266,11 @@ func (cr *cloneRun) startClone(op Op) {
 		cr.pump(time.Duration(500)*time.Millisecond, nil)
 		cr.startCloneReplica()
 	}
-	cr.note("clone", cr.snapName)
+	if cr.refImg != nil {
+		cr.note("clone", "rebuild-snapshot")
+	} else {
+		cr.note("clone", cr.snapName)
+	}
 }
 
 func (cr *cloneRun) startController2() {
@@ -336,6 +400,16 @@ func (cr *cloneRun) judgeCloneRW() {
 				cr.cviol("clone-differs-from-snapshot", "the clone's volume differs from snapshot %s as taken: %s", cr.snapName, why)
 				return
 			}
+		}
+	}
+	if cr.refImg != nil {
+		n := len(cr.refImg)
+		if len(img) < n {
+			n = len(img)
+		}
+		if !bytes.Equal(img[:n], cr.refImg[:n]) {
+			cr.cviol("clone-differs-from-source-snapshot", "the clone's volume differs from snapshot %s as an RW replica of the source held it when the clone started: %s", cr.snapName, describeDiff(img[:n], cr.refImg[:n]))
+			return
 		}
 	}
 	if src, rev, ok := cr.sourceSnapshotImage(); ok {
